@@ -530,7 +530,18 @@ func (x *Exec) checkClosure(sp *spec.FuncSpec, s *closureSite, sig string) {
 							panic(r)
 						}
 					}()
-					cond := x.simplifyUnder(s.st.PC, s.frame.evalBool(ce, s.st, s.st))
+					// captures(name): the closure captures that local of the compile function
+					capFrame := *s.frame
+					capFrame.overTV = map[string]TV{}
+					for k, v := range s.frame.overTV {
+						capFrame.overTV[k] = v
+					}
+					for _, fv := range s.clo.Fn.FreeVars {
+						capFrame.overTV["captures$"+fv.Name()] = TV{x.B.True(), types.Typ[types.Bool]}
+					}
+					x.capNames = capFrame.overTV
+					cond := x.simplifyUnder(s.st.PC, capFrame.evalBool(ce, s.st, s.st))
+					x.capNames = nil
 					ok = cond.IsTrue() || (!cond.IsFalse() && x.entailed(x.dropQuantified(s.st.PC), cond))
 				}()
 				if !ok {
